@@ -3,7 +3,7 @@ package main
 func init() { register("C05", checkC05) }
 
 func checkC05(r *Run) {
-	r.Explain = "Decides that derivation never hands out memory another logger can still write, and that copies are complete: A11 every store into Logger.context / Logger.hooks is classified by the origin of its backing array (fresh make/clone/append-onto-fresh; the receiver's own slice unchanged; grown in place; shared with another value), flow-sensitively through local struct copies — With, Output, Hook, Reset must be fresh, Level/Sample unchanged; derivation methods have value receivers and no pointer-receiver method except the documented UpdateContext writes the logger it is called on; A12 Logger.Output carries every field of Logger from the receiver (or sets it from the constructor for the destination), and the pooled Event/Array are re-initialised field by field on every path when taken from the pool (so GetCtx can never see a context left behind by another event); ISOL (shared with C18) hlog derives the request's logger inside the request closure (With().Logger() per request, never hoisted to the handler constructor), WithContext attaches the address of its own copy and never stores through a *Logger obtained from the context. UPDCTX UpdateContext applies on every logger but the shared disabled one; A12 get-confined: a pooled Event/Array leaves its pool only through the constructor that resets every field; PURE encoders never write into their input slices (the stored context of a logger is read-only to newEvent). A12 copy also on every path: an early return of Output (for a disabled receiver) that leaves fields behind is reported."
+	r.Explain = "Decides that derivation never hands out memory another logger can still write, and that copies are complete: A11 every store into Logger.context / Logger.hooks is classified by the origin of its backing array (fresh make/clone/append-onto-fresh; the receiver's own slice unchanged; grown in place; shared with another value), flow-sensitively through local struct copies — With, Output, Hook, Reset must be fresh, Level/Sample unchanged; derivation methods have value receivers and no pointer-receiver method except the documented UpdateContext writes the logger it is called on; A12 Logger.Output carries every field of Logger from the receiver (or sets it from the constructor for the destination), and the pooled Event/Array are re-initialised field by field on every path when taken from the pool (so GetCtx can never see a context left behind by another event); ISOL (shared with C18) hlog derives the request's logger inside the request closure (With().Logger() per request, never hoisted to the handler constructor), WithContext attaches the address of its own copy and never stores through a *Logger obtained from the context. UPDCTX UpdateContext applies on every logger but the shared disabled one; A12 get-confined: a pooled Event/Array leaves its pool only through the constructor that resets every field; PURE encoders never write into their input slices (the stored context of a logger is read-only to newEvent). A12 copy also on every path: an early return of Output (for a disabled receiver) that leaves fields behind is reported. ISOL per-request-copy-on-every-path: NewHandler's closure reaches next.ServeHTTP only after attaching the fresh With().Logger() copy. A12 copy: in the field-by-field shape of Output the context stored is a fresh array."
 	r.NotDec = "Goroutine interleavings as such: the claim is that with no shared writable memory and no receiver mutation there is nothing for an interleaving to act on. The in-place append of Context's value-receiver field adders is a known finding (API design)."
 	r.Assume = []string{"UpdateContext is applied only to a logger just produced by With() (property's restriction)"}
 	p := r.Use("J")
